@@ -757,6 +757,11 @@ func (p *CaseForm) typecheckForm(gammaNameTypesCtx NamesTypesCtx, providerShadow
 			newGammaNameTypesCtx := copyContext(gammaNameTypesCtx)
 
 			// curBranchForm.payload_c cannot exist in gammaNameTypesCtx
+			if nameTypeExists(newGammaNameTypesCtx, curBranchForm.payload_c.Ident) {
+				// Names are not fresh
+				return TypeErrorf("variable name '%s' is already defined. Use unique names in %s", curBranchForm.payload_c.String(), curBranchForm.StringShort())
+			}
+
 			newGammaNameTypesCtx[curBranchForm.payload_c.Ident] = NamesType{Type: expectedBranchType.SessionType}
 
 			// Set type
